@@ -53,6 +53,7 @@ fn main() {
         "ceremony" => guarded(move || ceremony::run(&arg)),
         "c18-trait" => ceremony::c18(&arg),
         "rpid-web" => guarded(move || rpid::web(&arg)),
+        "rpid-android" => guarded(move || rpid::android(&arg)),
         "hid-packets" => guarded(move || hid::packets_no_panic(&arg)),
         "hid-roundtrip" => guarded(move || hid::roundtrip(&arg)),
         _ => (false, false, format!("unknown entry {entry}")),
